@@ -23,6 +23,33 @@ for rel, m in sorted(repo.modules.items()):
     for cn, ci in m.classes.items():
         out["class_attrs"]["%s::%s" % (rel, cn)] = sorted(ci.attrs)
 out["functions"].sort()
+# for the rename normal form: who refers to each function name, how many parameters it takes, which instance attributes a class stores
+import ast
+names = {}
+for k in out["functions"]:
+    names.setdefault(k.split("::")[1].split(".")[-1], []).append(k)
+refs = {k: set() for k in out["functions"]}
+arity = {}
+inst = {}
+for rel, m in sorted(repo.modules.items()):
+    for fi in m.all_functions():
+        arity[fi.key] = len(fi.params)
+        for x in ast.walk(fi.node):
+            nm = x.id if isinstance(x, ast.Name) else (x.attr if isinstance(x, ast.Attribute) else None)
+            if nm in names and not (isinstance(x, ast.Name) and isinstance(x.ctx, ast.Store)):
+                for k in names[nm]:
+                    if k != fi.key:
+                        refs[k].add(fi.key)
+    for cn, ci in m.classes.items():
+        st = set()
+        for f in ci.methods.values():
+            for x in ast.walk(f.node):
+                if isinstance(x, ast.Attribute) and isinstance(x.ctx, ast.Store) and isinstance(x.value, ast.Name) and x.value.id == "self":
+                    st.add(x.attr)
+        inst["%s::%s" % (rel, cn)] = sorted(st)
+out["refs"] = {k: sorted(v) for k, v in refs.items()}
+out["arity"] = arity
+out["instance_attrs"] = inst
 with open(os.path.join(VERIF, "sa", "known_symbols.json"), "w") as f:
     json.dump(out, f, indent=1, sort_keys=True)
 print("functions", len(out["functions"]), "modules", len(out["globals"]), "classes", len(out["class_attrs"]))
